@@ -84,5 +84,21 @@ def fill(claim, na):
         TB + "eko's Couplings (alpha_s solver) is external; logs and couplings enter the model as rational parameters.",
         "DESIGN.md 6/C17",
     )
-    for p in ["C01", "C03", "C04", "C09", "C10", "C14", "C16", "C18", "C19", "C20"]:
+    claim(
+        "C14",
+        "proof",
+        "Lean 4 refinement proof: for every sequence of get_esf requests and cache drops the cache model answers each request with the object a fresh construction would give (induction over the operation list with a cache invariant; key injectivity lemma) + trace correspondence with the real StructureFunction cache + bit-exact real-run histories",
+        "history_independence: any operation list (any permutation/superset of requests, duplicates, TMC inner requests, cross-section requests, drops anywhere) returns, for each request, an object built from its own observable, point and TMC flag; the sorted cache key determines the point whatever the dict's insertion order (the pre-fix insertion-order key is proved non-injective). The model's hit/miss trace and returned objects are compared with the real cache on random histories (incl. delegation between structure functions); the evaluation plan of Runner.get_result (stable Q2 sort, drops, placement by original index) is compared with an instrumented real Runner; real permuted/extended/repeated runs are compared bit for bit with single-point runs.",
+        TB + "An ESF object's result is assumed to be a deterministic function of what it was constructed with (hidden state in numba/LeProHQ/scipy and memo tables of pure functions are outside the model; the bit-exact real-run comparison is what would expose them).",
+        "DESIGN.md 6/C14",
+    )
+    claim(
+        "C20",
+        "proof",
+        "Lean 4 theorems on an association-list model of compatibility.update (frame property: non-owned keys keep the very same reference) + exact correspondence with the real update on random cards + deep comparison of the caller's cards around real runs",
+        "PARTIAL for the idempotence clause. Proved: every key update does not own (incl. nested kinematics lists, grids, CKM lists, held as opaque references) comes out with exactly the value it went in with, on both cards, for every scheme/target/optional-key combination. Idempotence is proved on a concrete instance and observed on every random card of every run; general Lean proof not done. Observed on the real code: cards deep-equal before/after construction, get_result and a second construction; output echoes cards, grid, pids, projectile.",
+        TB + "The model is functional, so 'no write through the caller's dict' is an observation on the real function, not a theorem; other modules mutating a card would only be seen by the real-run comparison.",
+        "DESIGN.md 6/C20",
+    )
+    for p in ["C01", "C03", "C04", "C09", "C10", "C16", "C18", "C19"]:
         na(p, "check not yet built in this round (design in DESIGN.md section 6); will be claimed once its Lean model, theorems and correspondence exist")
